@@ -425,6 +425,20 @@ def gen_value_roundtrips(rng, tier):
         out.append(to_sexp(("value-roundtrip", ("v6", _g(*gs)), VENTRIES[pat % 4])))
     for z in lg.INT_POOL:
         out.append(to_sexp(("value-roundtrip", ("i", z), rng.choice(VENTRIES))))
+    # long byte strings around buffer-size thresholds, through every entry point: non-UTF-8 (array form),
+    # ASCII (string form), multi-byte UTF-8; as a value and as a map key
+    sizes = [255, 256, 257, 1023, 1025, 4095, 4096, 4097, 5000] if tier == "quick" else \
+            [255, 256, 257, 1023, 1024, 1025, 4095, 4096, 4097, 5000, 8191, 8193, 16385, 32769, 65535, 65536, 65537]
+    for n in sizes:
+        nonutf = bytes((0x80 + (i * 7) % 0x7F) if i % 3 else 0xFF for i in range(n))
+        ascii_ = bytes(0x61 + (i % 26) for i in range(n))
+        multi = ("\u00e9" * (n // 2) + "a" * (n % 2)).encode()
+        for e in VENTRIES:
+            for b in (nonutf, ascii_, multi):
+                out.append(to_sexp(("value-roundtrip", ("s", b), e)))
+            if n <= 5000:
+                out.append(to_sexp(("value-roundtrip", ("map", "bool", (nonutf, ("b", True))), e)))
+                out.append(to_sexp(("value-roundtrip", ("arr", "bytes", ("s", nonutf), ("s", ascii_)), e)))
     return out
 
 
